@@ -143,7 +143,25 @@ pub fn run_c14(ctx: &Ctx) -> i32 {
             if brk == PolicyBreak::Tampered && !proofs.is_empty() {
                 let i = rng.gen_range(0..proofs.len());
                 let pos = *[1usize, 4, 16, 0].get(rng.gen_range(0..4)).unwrap();
-                proofs[i].public_inputs[pos] += F::ONE;
+                match (ci / 9) % 3 {
+                    0 => proofs[i].public_inputs[pos] += F::ONE,
+                    1 => {
+                        proofs[i].proof.wires_cap.0[0].elements[0] += F::ONE;
+                        rep.count("private:tamper:body");
+                    }
+                    _ => {
+                        // the padding template's statement with a corrupted body among the supplied proofs
+                        let mut forged = template.clone();
+                        forged.proof.wires_cap.0[0].elements[0] += F::ONE;
+                        if proofs.len() >= 2 {
+                            let j = proofs.len() - 1;
+                            proofs[j] = forged;
+                        } else {
+                            proofs[i].proof.wires_cap.0[0].elements[0] += F::ONE;
+                        }
+                        rep.count("private:tamper:forged_template_repeat");
+                    }
+                }
             }
             // documented policies
             let all_verify = proofs.iter().all(|p| fake.data.verify(p.clone()).is_ok());
@@ -230,7 +248,7 @@ pub fn run_c14(ctx: &Ctx) -> i32 {
     let template = fake_inner.prove(&tv).unwrap();
     if let Ok(full) = PubFull::build(&fake_inner.data, m, n) {
         let vd = full.data.verifier_data();
-        let cases = ctx.tier.pick(18usize, 400);
+        let cases = ctx.tier.pick(24usize, 400);
         (0..cases).into_par_iter().for_each(|ci| {
             if ctx.over_budget() {
                 return;
@@ -243,13 +261,53 @@ pub fn run_c14(ctx: &Ctx) -> i32 {
                 for k in 1..4 { inner[k] = f(u(inner[k]) & M32); }
                 inner[0] = f(2 * n as u64);
             }
-            let k = match brk { PolicyBreak::Empty => 0, PolicyBreak::TooMany => m + 1, _ => rng.gen_range(1..=m) };
+            let forged_repeat = brk == PolicyBreak::Tampered && (ci / 6) % 4 >= 2 && m >= 2;
+            if forged_repeat {
+                // all supplied inners real and compatible, so that nothing but the forged body can be the reason for rejection
+                let key = (rand_d4(&mut rng), f(0), f(3));
+                for inner in inners.iter_mut() {
+                    *inner = crate::wrapcheck::random_inner(&mut rng, n, Some(key), false);
+                    for k in 1..4 { inner[k] = f(u(inner[k]) & M32); }
+                    inner[0] = f(2 * n as u64);
+                }
+            }
+            let k = match brk { PolicyBreak::Empty => 0, PolicyBreak::TooMany => m + 1, _ if forged_repeat => m, _ => rng.gen_range(1..=m) };
             let mut supplied: Vec<Vec<F>> = inners[..k].to_vec();
             if brk == PolicyBreak::AllDummy { supplied.iter_mut().for_each(|v| v[3..7].copy_from_slice(&[F::ZERO; 4])); }
             let mut proofs: Vec<Proof> = supplied.iter().map(|v| fake_inner.prove(v).unwrap()).collect();
             if brk == PolicyBreak::Tampered && !proofs.is_empty() {
                 let i = rng.gen_range(0..proofs.len());
-                proofs[i].public_inputs[8] += F::ONE;
+                match (ci / 6) % 4 {
+                    0 => proofs[i].public_inputs[8] += F::ONE,
+                    1 => {
+                        // statement untouched, proof body corrupted
+                        proofs[i].proof.wires_cap.0[0].elements[0] += F::ONE;
+                        rep.count("public:tamper:body");
+                    }
+                    2 | 3 if proofs.len() >= 2 => {
+                        // a LATER slot repeats the statement of an earlier, valid proof but carries a corrupted body
+                        let j = proofs.len() - 1;
+                        let mut forged = proofs[0].clone();
+                        forged.proof.wires_cap.0[0].elements[0] += F::ONE;
+                        proofs[j] = forged;
+                        rep.count("public:tamper:forged_repeat_of_a_valid_statement");
+                    }
+                    _ => {
+                        // the padding template's statement with a corrupted body, after the real proofs
+                        let mut forged = template.clone();
+                        forged.proof.wires_cap.0[0].elements[0] += F::ONE;
+                        if proofs.len() < m {
+                            proofs.push(template.clone());
+                        }
+                        let j = proofs.len() - 1;
+                        if j >= 1 {
+                            proofs[j] = forged;
+                        } else {
+                            proofs[0].proof.wires_cap.0[0].elements[0] += F::ONE;
+                        }
+                        rep.count("public:tamper:forged_template_repeat");
+                    }
+                }
             }
             let all_verify = proofs.iter().all(|p| fake_inner.data.verify(p.clone()).is_ok());
             let judged: Vec<Vec<F>> = proofs.iter().map(|p| p.public_inputs.clone()).collect();
@@ -287,6 +345,9 @@ pub fn run_c14(ctx: &Ctx) -> i32 {
                 }
                 Ok(Err(e)) => {
                     rep.count("public:commit_err");
+                    if brk == PolicyBreak::Tampered {
+                        rep.note(&format!("public tampered case {ci} (style {}) rejected with: {}", (ci / 6) % 4, e.to_string().chars().take(140).collect::<String>()));
+                    }
                     if policies_ok {
                         let mut padded = judged.clone();
                         while padded.len() < m { padded.push(tv.clone()); }
